@@ -18,21 +18,25 @@ def gen_conc_cases(rng, n, S, big=False):
     cls = size_classes(S)
     keys = list(cls)
     cases = []
-    modes = ["eager", "delayed", "poll", "set"]
+    modes = ["eager", "delayed", "poll", "set", "timeout"]
     for i in range(n):
         ns = rng.randint(1, 8)
         plans = []
         for _ in range(ns):
             k = rng.randint(1, 6)
             plans.append([cls[rng.choice(keys)] + rng.randint(0, 3) * 0 for _ in range(k)])
-        cases.append({"id": i + 1, "plans": plans, "mode": modes[i % 4], "procs": 1 if i % 5 == 3 else 0,
+        late = 1 if i % 4 == 1 else 0
+        if late:
+            # nobody reads while the senders run: keep what is in flight well below the socket buffers
+            plans = [[min(x, cls["m"]) for x in p[:3]] for p in plans[:3]]
+        cases.append({"id": i + 1, "plans": plans, "mode": modes[i % 5], "procs": 1 if i % 7 == 3 else 0, "late": late,
                       "delay_us": rng.choice([0, 0, 100, 400]) if i % 3 else 0, "S": S})
     return cases
 
 
 def run_conc(binp, S, cases, Sreal=None):
-    lines = ["id=%d msgs=%s mode=%s procs=%d delay_us=%d" % (
-        c["id"], ";".join(",".join(str(x) for x in p) for p in c["plans"]), c["mode"], c["procs"], c["delay_us"]) for c in cases]
+    lines = ["id=%d msgs=%s mode=%s procs=%d delay_us=%d late=%d" % (
+        c["id"], ";".join(",".join(str(x) for x in p) for p in c["plans"]), c["mode"], c["procs"], c["delay_us"], c.get("late", 0)) for c in cases]
     env = {"VSHIM_SNDBUF": S} if S else {}
     recs, trace, rc, err = C.run_harness(binp, "conc", lines, env_extra=env, timeout=900)
     by = {r["id"]: r for r in recs if r.get("kind") == "conc"}
@@ -108,6 +112,7 @@ def check_C02(chk):
     big = gen_conc_cases(rng, n // 3 + 2, F.DEFAULT_S)
     for c in big:
         c["plans"] = [p[:3] for p in c["plans"][:4]]
+        c["late"] = 0
     jobs.append((None, big))
     with concurrent.futures.ThreadPoolExecutor(max_workers=8) as ex:
         results = list(ex.map(lambda j: run_conc(bins["default"], j[0], j[1]), jobs))
@@ -115,8 +120,8 @@ def check_C02(chk):
     inproc = gen_conc_cases(rng, n // 2 + 2, 4096)
     for c in inproc:
         c["procs"] = 0
-    lines = ["id=%d msgs=%s mode=%s procs=0 delay_us=0" % (c["id"], ";".join(",".join(str(x) for x in p) for p in c["plans"]),
-                                                         c["mode"] if c["mode"] != "set" else "eager") for c in inproc]
+    lines = ["id=%d msgs=%s mode=%s procs=0 delay_us=0 late=%d" % (c["id"], ";".join(",".join(str(x) for x in p) for p in c["plans"]),
+                                                                 c["mode"] if c["mode"] != "set" else "eager", c.get("late", 0)) for c in inproc]
     recs, _, rc, err = C.run_harness(bins["inprocess"], "conc", lines, shim=False, timeout=600)
     by = {r["id"]: r for r in recs if r.get("kind") == "conc"}
     results.append([{"case": dict(c, flavour="inprocess"), "rec": by.get(c["id"]), "trace": None, "stderr": err} for c in inproc])
@@ -140,11 +145,11 @@ def check_C02(chk):
                                       if len(it["case"]["plans"]) > 1 and any(x > F.ffs(it["case"]["S"]) for p in it["case"]["plans"] for x in p)})
     cov["correspondence_mismatches"] = len(bad)
     cov["rule"] = ("conc driver: 1..8 senders (threads; every 5th run forked processes) x 1..6 messages per sender drawn from "
-                   "{64 B, 900 B, cap, cap+1, 3 packets, 6 packets}, S in {4096, 8192, 16384, default}, receiver eager / delayed / polling try_recv / "
-                   "through a receiver set, shim sleeping 0..400 us after each first fragment; in-process build too; "
+                   "{64 B, 900 B, cap, cap+1, 3 packets, 6 packets}, S in {4096, 8192, 16384, default}, receiver eager / delayed / polling try_recv / polling try_recv_timeout / "
+                   "through a receiver set, every 4th run started only after all senders have finished and dropped their handles, shim sleeping 0..400 us after each first fragment; in-process build too; "
                    "every send()'s system-call sequence is compared with Frag.send (follow-ups on the dedicated socket only); "
                    "non-trivial = at least 2 senders and at least one multi-packet message")
-    cov["input_distribution"] = {"modes": {m: sum(1 for it in items if it["case"]["mode"] == m) for m in ("eager", "delayed", "poll", "set")},
+    cov["input_distribution"] = {"modes": {m: sum(1 for it in items if it["case"]["mode"] == m) for m in ("eager", "delayed", "poll", "set", "timeout")},
                                  "procs": sum(1 for it in items if it["case"]["procs"]), "senders": {str(k): sum(1 for it in items if len(it["case"]["plans"]) == k) for k in range(1, 9)}}
     for it in items[:2]:
         chk.sample({"input": it["case"], "delivery_order": [(g[0], g[1]) for g in (it["rec"] or {}).get("got", [])][:20]})
